@@ -89,7 +89,7 @@ def _isinst(I, v, t):
     if n == 'float': return isinstance(v, float) or (isinstance(v, Opaque) and v.what == 'float')
     if n in ('str', 'string_types', 'text_type', 'unicode'): return isinstance(v, str) or (isinstance(v, Opaque) and v.what == 'str')
     if n == 'bytes': return isinstance(v, bytes) or (isinstance(v, Seq) and v.kind == 'bytes')
-    if n == 'bytearray': return False
+    if n == 'bytearray': return isinstance(v, Seq) and v.kind == 'bytearray'
     if n == 'list': return isinstance(v, list) or (isinstance(v, Seq) and v.kind == 'list')
     if n == 'tuple': return isinstance(v, tuple)
     if n == 'dict': return isinstance(v, (dict, SMap))
@@ -398,24 +398,14 @@ def _sum(I, args, kw):
     return acc
 
 
-def psum_fn():
-    """uninterpreted partial-sum function psum(array, n) with its unfolding axiom instantiated on demand"""
-    return z3.Function('psum', z3.ArraySort(z3.IntSort(), z3.IntSort()), z3.IntSort(), z3.IntSort())
-
-
 def seq_sum(I, s, start):
-    # represent the content as an array term so that psum is a function of content
-    st = I.st
-    arr = z3.Array(st.fresh_name('sumarr'), z3.IntSort(), z3.IntSort())
-    k = z3.Int(st.fresh_name('k'))
-    n = zint(s.n)
-    st.assume(z3.ForAll([k], z3.Implies(z3.And(k >= 0, k < n), arr[k] == s.zat(k))))
-    f = psum_fn()
-    j = z3.Int(st.fresh_name('k'))
-    st.assume(f(arr, 0) == 0)
-    st.assume(z3.ForAll([j], z3.Implies(j > 0, f(arr, j) == f(arr, j - 1) + arr[j - 1])))
-    st.ghost.setdefault('psum_arrays', []).append((s, arr))
-    return mk(zint(start) + f(arr, n))
+    """sum over a symbolic-length sequence = the uninterpreted fold 'psum' with its unfolding axioms
+    (same function the spec side obtains through E.fold('psum', ...))"""
+    from .sym import SymE
+    E = SymE(I.st, I.cfg)
+    E.I = I
+    r = E.fold('psum', s, 0, lambda acc, b: acc + b, additive=True)
+    return I.binop(_interp().ast.Add, start, r) if not (isinstance(start, int) and start == 0) else r
 
 
 @builtin('min')
@@ -526,8 +516,12 @@ def _bytes(I, args, kw):
     if isinstance(v, int): return bytes(v)
     if isinstance(v, str):
         return v.encode(args[1] if len(args) > 1 else kw.get('encoding', 'utf-8'))
-    if isinstance(v, Seq):
+    if isinstance(v, Seq) and v.kind in ('bytes', 'bytearray'):
         return v.as_kind('bytes')
+    if isinstance(v, Seq) and v.kind == 'list' and v.items is None:
+        raise Unsupported('bytes() of a symbolic-length list')
+    if isinstance(v, Seq) and v.kind == 'list':
+        v = list(v.items)
     if isinstance(v, (list, tuple)):
         items = list(v)
         for x in items:
@@ -542,7 +536,7 @@ def _bytes(I, args, kw):
 @builtin('bytearray')
 def _bytearray(I, args, kw):
     r = _bytes(I, args, kw)
-    return to_seq(r).as_kind('bytes')
+    return to_seq(r).as_kind('bytearray')
 
 
 @builtin('object')
@@ -675,7 +669,7 @@ def struct_pack(I, fmt, vals):
             out.append(0); continue
         v = vals[vi]; vi += 1
         if ch == 's':
-            if not isinstance(v, (bytes, Seq)) or (isinstance(v, Seq) and v.kind != 'bytes'): raise Raised('struct.error')
+            if not isinstance(v, (bytes, Seq)) or (isinstance(v, Seq) and not v.is_bytes()): raise Raised('struct.error')
             s = to_seq(v)
             if s.items is None:
                 if not I.st.decide(zint(s.n) == cnt):
@@ -727,7 +721,7 @@ def struct_unpack(I, fmt, data):
     need = sum(c if ch == 's' else STRUCT_SIZES[ch] for c, ch in items)
     if isinstance(data, Opaque):
         raise Unsupported('struct.unpack of opaque data')
-    if not isinstance(data, (bytes, Seq)) or (isinstance(data, Seq) and data.kind != 'bytes'): raise Raised('TypeError')
+    if not isinstance(data, (bytes, Seq)) or (isinstance(data, Seq) and not data.is_bytes()): raise Raised('TypeError')
     s = to_seq(data)
     if isinstance(s.n, int):
         if s.n != need: raise Raised('struct.error')
@@ -958,8 +952,28 @@ def native_method(I, recv, name, args, kw):
         if name == 'bit_length' and isinstance(recv, int): return recv.bit_length()
         raise Unsupported('int.%s' % name)
     # ---- bytes / Seq
+    if isinstance(recv, Seq) and recv.kind == 'str':
+        if name == 'encode':
+            return recv.as_kind('bytes')
+        raise Unsupported('method %s of symbolic text' % name)
     if isinstance(recv, (bytes, Seq)):
         s = to_seq(recv)
+        if s.kind == 'bytearray':
+            if name == 'append':
+                x = args[0]
+                if V.is_sym(x):
+                    if not st.decide(z3.And(zint(x) >= 0, zint(x) < 256)): raise Raised('ValueError')
+                elif not isinstance(x, int): raise Raised('TypeError')
+                elif not 0 <= x < 256: raise Raised('ValueError')
+                new = V.seq_concat(s.copy(), Seq('bytearray', None, items=[x]))
+                s.items, s.n, s._at, s.elem, s.parts = new.items, new.n, new._at, new.elem, new.parts
+                return None
+            if name == 'extend':
+                o = args[0]
+                if isinstance(o, str): raise Raised('TypeError')
+                new = V.seq_concat(s.copy(), to_seq(o).as_kind('bytearray'))
+                s.items, s.n, s._at, s.elem, s.parts = new.items, new.n, new._at, new.elem, new.parts
+                return None
         if s.kind == 'list':
             if name == 'append':
                 new = V.seq_concat(s.copy(), Seq('list', None, items=[args[0]], elem='bool' if isinstance(args[0], (bool, SBool)) and (s.elem == 'bool' or (s.items is not None and not s.items)) else s.elem))
@@ -1008,7 +1022,7 @@ def native_method(I, recv, name, args, kw):
             items = I.iterate(args[0])
             acc = Seq('bytes', None, items=[])
             for j, x in enumerate(items):
-                if not isinstance(x, (bytes, Seq)) or isinstance(x, Seq) and x.kind != 'bytes': raise Raised('TypeError')
+                if not isinstance(x, (bytes, Seq)) or isinstance(x, Seq) and not x.is_bytes(): raise Raised('TypeError')
                 if j: acc = V.seq_concat(acc, s)
                 acc = V.seq_concat(acc, x)
             return acc
